@@ -313,12 +313,26 @@ def check_C19(tier):
                         expect_actions=["Refuse", "Sort", "Open", "Claim", "Finish", "Collect", "Write"], workers=8,
                         timeout=3000)
     res.add_mc(r)
+    # System.tla: the composition DAQ chunks -> event builder -> run bookkeeping with one fault anywhere;
+    # every finished behaviour (sampled in the quick tier) is replayed through the real vertices binary
+    nev = 2 if tier == "quick" else 3
+    cfg_s = write_cfg("System_" + tier, constants={"NEvents": nev, "Clock": 4, "ChunksPerEvent": 2},
+                      invariants=["OneRowPerEvent", "FaultContainment", "TimeUnaffected", "Export"])
+    rs = tlc_model_check("System", cfg_s, "system_" + tier, expect_actions=["Produce", "Analyse"], workers=8, timeout=3000)
+    res.add_mc(rs)
+    sysbeh = os.path.join(BUILD, "traces", "C19_system.ndjson")
+    step = 7 if tier == "quick" else 3
+    with open(sysbeh, "w") as f:
+        for k, c in enumerate(rs["replay"]):
+            if k % step == 0:
+                f.write(json.dumps(c) + "\n")
+    res.extra["system_behaviours_replayed"] = len(rs["replay"][::step])
     bins = build_bins()
     n = 40 if tier == "quick" else 600
     trace = os.path.join(BUILD, "traces", "C19_trace.ndjson")
     work = os.path.join(BUILD, "work_C19")
     res.evaluations += run_vh(["csvrun", "--bindir", bins, "--work", work, "--n", str(n), "--seed", str(seed()),
-                               "--tier", tier], trace, timeout=7200)
+                               "--tier", tier, "--in", sysbeh], trace, timeout=7200)
     shutil.rmtree(work, ignore_errors=True)
     for k, part in enumerate(split_file(trace, 300)):
         validate_dec_trace(res, part, "C19_%d" % k, module="Trace_RunCsv", descriptor=csvrun_descriptor)
